@@ -2,6 +2,11 @@ module verif/harness
 
 go 1.24.2
 
-require github.com/AdguardTeam/golibs v0.0.0
+require (
+	github.com/AdguardTeam/golibs v0.0.0
+	golang.org/x/net v0.39.0
+)
+
+require golang.org/x/text v0.24.0 // indirect
 
 replace github.com/AdguardTeam/golibs => /repo
